@@ -1,4 +1,4 @@
-import Aurora.Lemmas.MantarayPrefix
+import Aurora.Lemmas.MantarayRemove
 /-!
 # C10 — Directory manifests map paths to the last written entry
 
@@ -12,10 +12,11 @@ answers as the map does — is **false of the code** (six independent defects, a
 each with a minimal history below and a `known:` entry); what is proved:
 (1) `C10_add_lookup_refines` — the full refinement for unbounded histories of add / lookup /
 hasPrefix on an in-memory manifest (own path and frame condition, edge splits, prefix limit, overwrites);
+(1b) `C10_remove_refines_guarded` — the same for histories with `remove`, under the explicit guard
+`Guarded` (every remove targets a mapped path that no other mapped path extends; no store / reload);
 (2) for *every* trie state (loaded, lazily loaded or reloaded; any history before it) a lookup of the
 path just added / just removed answers as the map does.
-The frame condition of `remove` inside its guard and persistence across store / reload
-are tied to the code only by the differential run on histories that stay inside the guard.
+Persistence across store / reload (inside its guard) and `hasPrefix` after a `remove` are tied to the code only by the differential run on histories that stay inside the guard.
 -/
 namespace Aurora.Mantaray
 
@@ -87,6 +88,85 @@ theorem C10_add_lookup_refines (ops : List Op) (hops : ∀ op ∈ ops, MemOp op)
     | remove p => exact absurd hop (by simp [MemOp])
     | store => exact absurd hop (by simp [MemOp])
     | reload => exact absurd hop (by simp [MemOp])
+
+/-- The guard of the remove clause along a history (stated on the specification state, i.e. on the
+    mapping alone): adds carry metadata, and every `remove p` targets a mapped, non-empty path that no
+    other mapped path extends.  It excludes exactly `C10_remove_drops_extensions_counterexample`;
+    store / reload / hasPrefix are not part of these histories (the other remove defects). -/
+def Guarded : Spec → List Op → Prop
+  | _, [] => True
+  | sp, .add p e md :: rest => md ≠ [] ∧ Guarded (specStep sp (.add p e md)).1 rest
+  | sp, .lookup _ :: rest => Guarded sp rest
+  | sp, .remove p :: rest =>
+      p ≠ [] ∧ (sp.cur.find p).isSome = true ∧ (∀ x ∈ sp.cur, isPrefix p x.1 = true → x.1 = p) ∧
+      Guarded (specStep sp (.remove p)).1 rest
+  | _, _ :: _ => False
+
+/-- Refinement with `remove` (partial by its guard): every unbounded history of add / lookup / remove
+    on a fresh in-memory manifest that stays inside `Guarded` answers exactly as the path map — the
+    removed path is gone, every other path keeps its entry. -/
+theorem C10_remove_refines_guarded (ops : List Op) (hg : Guarded {} ops) :
+    (run State.new ops).2 = specRun {} ops := by
+  suffices H : ∀ (ops : List Op) (s : State) (sp : Spec), Guarded sp ops → s.dead = false →
+      Mem s.root → (∀ fl q, q.length < fl → sem fl s.root q = sp.cur.find q) →
+      (run s ops).2 = specRun sp ops from
+    H ops State.new {} hg rfl Mem.new
+      (by
+        intro fl q hq
+        cases fl with
+        | zero => omega
+        | succ f =>
+          show sem (f + 1) Node.new q = PathMap.find [] q
+          rw [sem_noforks f Node.new rfl]; cases q <;> simp [semNode_new, PathMap.find])
+  intro ops
+  induction ops with
+  | nil => intro s sp _ _ _ _; rfl
+  | cons op rest ih =>
+    intro s sp hg hlive hm hsim
+    cases op with
+    | add p e md =>
+      obtain ⟨hmd, hgr⟩ := hg
+      obtain ⟨n', hn'⟩ := add_isSome e md (p.length + 1) s.root p hm
+      obtain ⟨hm', law⟩ := sem_add e md hmd (p.length + 1) s.root p n' hm (by omega) hn'
+      simp only [run, specRun, step, hlive, Bool.false_eq_true, if_false, stepLive, hn', specStep] at hgr ⊢
+      congr 1
+      exact ih _ _ hgr (by simpa using hlive) hm'
+        (by intro fl q hq; rw [law fl q hq, find_insert, hsim fl q hq])
+    | lookup p =>
+      simp only [Guarded] at hg
+      simp only [run, specRun, step, hlive, Bool.false_eq_true, if_false, stepLive, specStep,
+        lookup_mem _ hm, hsim _ p (Nat.lt_succ_self _)]
+      congr 1
+      exact ih _ _ hg (by simpa using hlive) hm hsim
+    | remove p =>
+      obtain ⟨hne, hfind, hext, hgr⟩ := hg
+      obtain ⟨v, hv⟩ := Option.isSome_iff_exists.mp hfind
+      have hsemp : sem (p.length + 1) s.root p = some v := by rw [hsim _ p (Nat.lt_succ_self _), hv]
+      obtain ⟨hm', hok, law, _⟩ := sem_remove (p.length + 1) s.root p hm (Nat.lt_succ_self _) hne
+      have hres := hok (get_isSome_of_sem hsemp)
+      have hpe : p.isEmpty = false := by cases p <;> simp_all
+      simp only [specStep, hpe, Bool.false_eq_true, if_false, hv] at hgr
+      simp only [run, specRun, step, hlive, Bool.false_eq_true, if_false, stepLive, specStep, hres, hpe, hv]
+      congr 1
+      refine ih _ _ hgr (by simpa using hlive) hm' ?_
+      intro fl q hq
+      rw [law hres fl q hq, find_erase, hsim fl q hq]
+      by_cases hpq : isPrefix p q = true
+      · by_cases hqp : q = p
+        · rw [if_pos hpq, if_pos hqp]
+        · simp only [hpq, if_true, hqp, if_false]
+          cases hfq : sp.cur.find q with
+          | none => rfl
+          | some w =>
+            obtain ⟨x, hx, hxq⟩ := find_some_mem _ _ _ hfq
+            exact absurd (hxq ▸ hext x hx (hxq ▸ hpq)) hqp
+      · have hqp : ¬ q = p := by
+          intro e; subst e
+          exact hpq (by simpa using isPrefix_append_self q [])
+        simp [hpq, hqp]
+    | store => exact absurd hg (by simp [Guarded])
+    | reload => exact absurd hg (by simp [Guarded])
+    | hasPrefix p => exact absurd hg (by simp [Guarded])
 
 /-- Refinement, add/lookup clause (partial): after `add p e md` (non-empty metadata) on ANY live
     manifest state, `lookup p` answers `(e, md)` — whatever was stored, reloaded, read or removed
@@ -171,6 +251,11 @@ theorem C10_full_counterexample : ¬ C10_full :=
   fun h => C10_remove_drops_extensions_counterexample (h _)
 
 /-! ## Non-vacuity -/
+
+/-- a history inside the remove guard: add, overwrite, remove a key without extensions, re-add -/
+example : Guarded {} [.add ab (r 1) kv, .add ac (r 2) kv, .lookup ab, .remove ab, .lookup ab, .lookup ac,
+    .add ab (r 3) kv, .lookup ab] := by
+  simp [Guarded, specStep, PathMap.insert, PathMap.erase, PathMap.find, ab, ac, kv, isPrefix]
 
 /-- a history of the in-memory fragment with an edge split, an overwrite and a long path -/
 example : ∀ op ∈ [Op.add ab (r 1) kv, .add a (r 2) kv, .add a (r 3) kv, .lookup ab, .hasPrefix a, .lookup x], MemOp op := by
